@@ -174,6 +174,9 @@ class CallFrame(MemorySegment):
 
 
 class Array(MemorySegment):
+    # more than this cannot be allocated (QB itself stopped at 64K)
+    MAX_CELLS = 2 ** 24
+
     def __init__(self, element_size, bounds):
         assert isinstance(element_size, int)
         assert isinstance(bounds, list)
@@ -184,6 +187,14 @@ class Array(MemorySegment):
 
         self.element_size = element_size
         self.bounds = bounds
+
+        n_cells = element_size
+        for lbound, ubound in bounds:
+            n_cells *= (ubound - lbound + 1)
+        if n_cells > Array.MAX_CELLS:
+            raise Trapped(
+                trap_code=TrapCode.INDEX_OUT_OF_RANGE,
+                trap_kwargs={'msg': f'Array too large ({n_cells} cells)'})
 
         header = [
             None,  # reserved
@@ -230,9 +241,9 @@ class QvmCpu:
         self.error_handler_active = False
         self.trapped_addr = 0
 
-        # operand stack depth at the start of the statement being
-        # executed; only tracked while an error handler is armed
-        self.stmt_start_depth = None
+        # statement start addresses (from the debug info); while an
+        # error handler is armed the operand stack depth at the start
+        # of the statement being executed is kept in the call frame
         self._stmt_starts = None
 
         self.received_keyboard_interrupt = False
@@ -330,8 +341,11 @@ class QvmCpu:
 
         if self.trap_target is not None and \
            not self.error_handler_active and \
+           self.cur_frame is not None and \
            self.pc in self._get_stmt_starts():
-            self.stmt_start_depth = len(self.stack)
+            # kept per frame: statements of a called FUNCTION must not
+            # overwrite the depth of the calling statement
+            self.cur_frame.stmt_start_depth = len(self.stack)
 
         self.prev_pc = self.pc
         instr_addr = self.pc
@@ -460,7 +474,7 @@ class QvmCpu:
         # execution resumes (RESUME, RESUME NEXT, ON ERROR RESUME NEXT),
         # so that programs which never resume behave the same with and
         # without debug info
-        depth = self.stmt_start_depth
+        depth = getattr(self.cur_frame, 'stmt_start_depth', None)
         if depth is not None and depth <= len(self.stack):
             del self.stack[depth:]
 
@@ -823,7 +837,9 @@ class QvmCpu:
         self._bitwise(lambda a, b: ~(a ^ b))
 
     def _exec_errget(self):
-        self.push(CellType.INTEGER, self.last_trap.value)
+        # ERR is 0 as long as no error has occurred
+        value = self.last_trap.value if self.last_trap is not None else 0
+        self.push(CellType.INTEGER, value)
 
     def _exec_errhand(self, target):
         if target == 0 and self.error_handler_active:
@@ -853,6 +869,13 @@ class QvmCpu:
             self.trap(TrapCode.CANNOT_RESUME,
                       msg=f'Could not find statement to resume at addr {self.trapped_addr:08x}.')
         self.pc = stmt.start_offset
+        instr, _, size = self.get_instruction_at(self.pc)
+        if instr is not None and instr.op == 'jmp' and \
+           self.trapped_addr != self.pc:
+            # The record of an ELSEIF statement starts with the jump
+            # that ends the previous branch of the IF block; the code
+            # of the statement itself comes after it.
+            self.pc += size
         self.error_handler_active = False
         self._drop_partial_results()
 
